@@ -46,12 +46,19 @@ package percolator
 //@   ensures [error-means-no-record] result2 != nil ==> result == nil
 //@   modifies nothing
 
+// Lock lookups: the latest answer (lastLock*) and the one before it (prevLock*).
 //@ ghost var lockLookups Int
 //@ ghost var lastLockFound bool
 //@ ghost var lastLockTs uint64
 //@ ghost var lastLockTTL uint64
+//@ ghost var prevLockFound bool
+//@ ghost var prevLockTs uint64
+//@ ghost var prevLockTTL uint64
 //@ func (*Reader).GetLock
 //@   trusted
+//@   ghost prevLockFound = lastLockFound
+//@   ghost prevLockTs = lastLockTs
+//@   ghost prevLockTTL = lastLockTTL
 //@   ghost lockLookups = lockLookups + 1
 //@   ghost lastLockFound = result != nil
 //@   ghost lastLockTs = (result != nil ? result.Ts : 0)
@@ -94,35 +101,35 @@ package percolator
 //@   ensures [newer-write-blocks-prewrite] mrwCalls == old(mrwCalls) + 1 && lastMRWFound && lastMRWCommitTs >= req.StartVersion ==> result != nil && dbWrites == old(dbWrites)
 //@   ensures [foreign-lock-blocks-prewrite] lockLookups == old(lockLookups) + 1 && lastLockFound && lastLockTs != req.StartVersion ==> result != nil && dbWrites == old(dbWrites)
 //@   ensures [conflict-checks-not-skipped] result == nil ==> mrwCalls == old(mrwCalls) + 1 && lockLookups == old(lockLookups) + 1
-//@   modifies ghost(mrwCalls), ghost(lastMRWFound), ghost(lastMRWCommitTs), ghost(lockLookups), ghost(lastLockFound), ghost(lastLockTs), ghost(lastLockTTL), ghost(dbWrites), ghost(writeCFSets), ghost(lockDeletes), ghost(defaultDeletes), ghost(writeAfterLockDelete)
+//@   modifies ghost(mrwCalls), ghost(lastMRWFound), ghost(lastMRWCommitTs), ghost(lockLookups), ghost(lastLockFound), ghost(lastLockTs), ghost(lastLockTTL), ghost(prevLockFound), ghost(prevLockTs), ghost(prevLockTTL), ghost(dbWrites), ghost(writeCFSets), ghost(lockDeletes), ghost(defaultDeletes), ghost(writeAfterLockDelete)
 
-// C19 CheckTxnStatus: the lock of ANOTHER transaction on the primary key is never
-// touched, and a lock of the inspected transaction that has not expired is not removed.
+// C19 CheckTxnStatus: a lock entry is deleted only when the lookup right before the
+// deletion found the lock of the inspected transaction (another transaction's lock on the
+// primary key is never removed), and that lock is removed only if it had expired relative
+// to the caller's timestamp when CheckTxnStatus first looked at it.
+//@ spec func expiredAt(ts uint64, ttl uint64, now uint64) bool = ttl != 0 && math(now) >= math(ts) + math(ttl)
 //@ func CheckTxnStatus
 //@   property C19
 //@   requires latches == nil || len(latches.stripes) > 0
-//@   ensures [foreign-lock-untouched] req != nil && lockLookups == old(lockLookups) + 1 && lastLockFound && lastLockTs != req.LockTs ==> dbWrites == old(dbWrites) && result != nil && result.Error != nil
-//@   ensures [live-lock-kept] req != nil && lockLookups == old(lockLookups) + 1 && lastLockFound && lastLockTs == req.LockTs && !(lastLockTTL != 0 && math(req.CurrentTs) >= math(lastLockTs) + math(lastLockTTL)) ==> lockDeletes == old(lockDeletes)
-//@   ensures [one-lock-lookup] req != nil ==> lockLookups == old(lockLookups) + 1
+//@   ensures [only-inspected-txn-lock-removed] req != nil && lockDeletes > old(lockDeletes) ==> lastLockFound && lastLockTs == req.LockTs
+//@   ensures [at-most-two-lookups] req != nil ==> old(lockLookups) + 1 <= lockLookups && lockLookups <= old(lockLookups) + 2
+//@   ensures [live-lock-kept-1] req != nil && lockLookups == old(lockLookups) + 1 && lastLockFound && lastLockTs == req.LockTs && !(lastLockTTL != 0 && math(req.CurrentTs) >= math(lastLockTs) + math(lastLockTTL)) ==> lockDeletes == old(lockDeletes)
+//@   ensures [live-lock-kept-2] req != nil && lockLookups == old(lockLookups) + 2 && prevLockFound && prevLockTs == req.LockTs && !(prevLockTTL != 0 && math(req.CurrentTs) >= math(prevLockTs) + math(prevLockTTL)) ==> lockDeletes == old(lockDeletes)
 
 //@ func keyErrorAbort
 //@   trusted
-//@   tag ghost-pure
 //@   ensures [non-nil] result != nil
 //@   modifies nothing
 //@ func keyErrorRetryable
 //@   trusted
-//@   tag ghost-pure
 //@   ensures [non-nil] result != nil
 //@   modifies nothing
 //@ func keyErrorCommitTsExpired
 //@   trusted
-//@   tag ghost-pure
 //@   ensures [non-nil] result != nil
 //@   modifies nothing
 //@ func keyErrorLocked
 //@   trusted
-//@   tag ghost-pure
 //@   ensures [non-nil] result != nil
 //@   modifies nothing
 
@@ -141,8 +148,13 @@ package percolator
 //@   property C18
 //@   ensures [one-lookup] lookups == old(lookups) + 1
 //@   ensures [decided-transaction-untouched] lastFound ==> result == nil && dbWrites == old(dbWrites)
-//@   ensures [rollback-record-last] result == nil && !lastFound ==> writeCFSets == old(writeCFSets) + 1 && lockDeletes == old(lockDeletes) + 1 && defaultDeletes == old(defaultDeletes) + 1
-//@   modifies ghost(lookups), ghost(lastFound), ghost(lastRollback), ghost(sawRollback), ghost(dbWrites), ghost(writeCFSets), ghost(lockDeletes), ghost(defaultDeletes), ghost(writeAfterLockDelete)
+//@   ensures [rollback-record-last] result == nil && !lastFound ==> writeCFSets == old(writeCFSets) + 1 && defaultDeletes == old(defaultDeletes) + 1
+//@   ensures [only-own-lock-removed] lockDeletes > old(lockDeletes) ==> lastLockFound && lastLockTs == startTs
+//@   ensures [own-lock-removed] result == nil && !lastFound && lastLockFound && lastLockTs == startTs ==> lockDeletes == old(lockDeletes) + 1
+//@   ensures [lookup-shifts-history] lockLookups == old(lockLookups) + 1 ==> prevLockFound == old(lastLockFound) && prevLockTs == old(lastLockTs) && prevLockTTL == old(lastLockTTL)
+//@   ensures [no-lookup-keeps-history] lockLookups == old(lockLookups) ==> lastLockFound == old(lastLockFound) && lastLockTs == old(lastLockTs) && lastLockTTL == old(lastLockTTL) && lockDeletes == old(lockDeletes)
+//@   ensures [at-most-one-lock-lookup] lockLookups <= old(lockLookups) + 1 && lockLookups >= old(lockLookups) && lockDeletes <= old(lockDeletes) + 1
+//@   modifies ghost(lockLookups), ghost(lastLockFound), ghost(lastLockTs), ghost(lastLockTTL), ghost(prevLockFound), ghost(prevLockTs), ghost(prevLockTTL), ghost(lookups), ghost(lastFound), ghost(lastRollback), ghost(sawRollback), ghost(dbWrites), ghost(writeCFSets), ghost(lockDeletes), ghost(defaultDeletes), ghost(writeAfterLockDelete)
 
 //@ func Commit
 //@   property C18
